@@ -47,6 +47,61 @@ def exec_allocs(tracefile):
     return res
 
 
+def focused_scenarios(rng, n):
+    """(setup lines, target line, follow-up lines): one allocation-heavy region call per scenario, for which EVERY
+       allocation request of that call is refused in turn (single and persistent).  Targets: init_rects whose boxes
+       fall into several y-overlapping groups (validate() then builds and merges several partial regions), the
+       binary operations on large operands, in-place variants, conversions of > 16 rectangles, translations that
+       must re-validate after clipping."""
+    out = []
+    for i in range(n):
+        w = rng.choice([16, 32])
+        off = 0 if w == 16 else 3
+        A, B, C = 1 + off, 2 + off, 3 + off
+
+        def staircase(groups, per, x0=0):
+            v = []
+            for g in range(groups):
+                for k in range(per):
+                    x = x0 + 30 * g + rng.randint(0, 3)
+                    y = 7 * k + 3 * g + rng.randint(0, 1)
+                    v += [x, y, x + rng.randint(4, 20), y + rng.randint(2, 9)]
+            boxes = [v[j:j + 4] for j in range(0, len(v), 4)]
+            rng.shuffle(boxes)
+            return [c for b in boxes for c in b]
+
+        kind = rng.choice(["init_rects", "init_rects", "init_rects", "union", "subtract", "intersect", "inverse", "inplace",
+                           "conv", "translate", "copy", "union_rect"])
+        big1 = staircase(rng.randint(2, 7), rng.randint(2, 6))
+        big2 = staircase(rng.randint(2, 5), rng.randint(2, 5), x0=rng.randint(0, 25))
+        setup = ["O %d init_rects %d 0 0 %d %s" % (w, A, len(big1), " ".join(map(str, big1))),
+                 "O %d init_rects %d 0 0 %d %s" % (w, B, len(big2), " ".join(map(str, big2)))]
+        if kind == "init_rects":
+            v = staircase(rng.randint(4, 9), rng.randint(2, 5))
+            target = "O %d init_rects %d 0 0 %d %s" % (w, C, len(v), " ".join(map(str, v)))
+        elif kind in ("union", "subtract", "intersect"):
+            target = "O %d %s %d %d %d 0" % (w, kind, C, A, B)
+        elif kind == "inplace":
+            target = "O %d %s %d %d %d 0" % (w, rng.choice(["union", "subtract", "intersect"]), rng.choice([A, B]), A, B)
+        elif kind == "inverse":
+            target = "O %d inverse %d %d 0 4 -5 -5 300 90" % (w, rng.choice([A, C]), A)
+        elif kind == "conv":
+            src = 1 + (3 if w == 16 else 0)
+            setup = ["O %d init_rects %d 0 0 %d %s" % (48 - w, src, len(big1), " ".join(map(str, big1)))]
+            target = "O %d conv %d %d 0 0" % (w, C, src)
+        elif kind == "translate":
+            lim = 32767 if w == 16 else 2 ** 31 - 1
+            target = "O %d translate %d 0 0 2 %d %d" % (w, A, lim - rng.randint(20, 120), rng.choice([0, 5]))
+        elif kind == "copy":
+            target = "O %d copy %d %d 0 0" % (w, C, A)
+        else:
+            target = "O %d union_rect %d %d 0 4 3 3 250 60" % (w, rng.choice([A, C]), A)
+        follow = ["O %d union %d %d %d 0" % (w, B, C, A), "O %d intersect %d %d %d 0" % (w, C, C, B),
+                  "O %d copy %d %d 0 0" % (w, A, C), "O %d clear %d 0 0 0" % (w, C)]
+        out.append((["R foc%d" % i] + setup, target, follow))
+    return out
+
+
 def run(prop, args):
     chk = vf.Check(prop, args.tier, args.seed)
     quick = args.tier == "quick"
@@ -79,7 +134,7 @@ def run(prop, args):
     sp = os.path.join(wd, "ff.script")
     open(sp, "w").write("".join("\n".join(e) + "\n" for e in execs))
     tr0 = os.path.join(wd, "ff.ndjson")
-    vf.sh([exe_r, sp, tr0], timeout=600)
+    vf.run_driver([exe_r, sp, tr0], tr0, timeout=600)
     nall = exec_allocs(tr0)
     faulted = []
     cap = 10 if quick else 40
@@ -94,6 +149,36 @@ def run(prop, args):
             for mode in (0, 1):
                 faulted.append(["R %s-k%d-m%d" % (name, kk, mode), "F %d %d" % (kk, mode)] + e[1:])
                 sites += 1
+    # focused scenarios: every allocation request of one heavy call
+    foc = focused_scenarios(rng, 40 if quick else 250)
+    spf = os.path.join(wd, "foc.script")
+    open(spf, "w").write("".join("\n".join(su + [tg] + fo) + "\n" for su, tg, fo in foc))
+    trf = os.path.join(wd, "foc.ndjson")
+    vf.run_driver([exe_r, spf, trf], trf, timeout=600)
+    # allocation requests of the target call = difference of the cumulative counters around it
+    per_exec = {}
+    cur = None
+    for line in open(trf):
+        if line.startswith('{"e":"Reset"'):
+            cur = json.loads(line)["scenario"]
+            per_exec[cur] = []
+        elif line.startswith('{"e":"Op"'):
+            i = line.find('"na":')
+            per_exec[cur].append(int(line[i + 5:line.find(",", i)]))
+    nfoc = 0
+    for su, tg, fo in foc:
+        name = su[0].split()[1]
+        nas = per_exec.get(name, [])
+        nsetup = len(su) - 1
+        if len(nas) <= nsetup:
+            continue
+        before = nas[nsetup - 1] if nsetup > 0 else 0
+        n_op = nas[nsetup] - before
+        for kk in range(1, min(n_op, 60) + 1):
+            for mode in (0, 1):
+                faulted.append(["R %s-k%d-m%d" % (name, kk, mode)] + su[1:] + ["F %d %d" % (kk, mode), tg] + fo)
+                nfoc += 1
+    chk.extra["focused_fault_runs"] = nfoc
     chk.extra["region_fault_runs"] = len(faulted)
     chk.extra["region_executions_with_allocations"] = sum(1 for v in nall.values() if v)
     traces = []
@@ -105,9 +190,9 @@ def run(prop, args):
         spb = os.path.join(wd, "rf%d.ndjson.script" % bi)
         open(spb, "w").write("".join("\n".join(e) + "\n" for e in part))
         trb = os.path.join(wd, "rf%d.ndjson" % bi)
-        p = vf.sh([exe_r, spb, trb], timeout=900, check=False)
-        if p.returncode != 0 and "AddressSanitizer" not in (p.stdout or ""):
-            raise vf.Infra("drv_region (fault mode) failed rc=%d: %s" % (p.returncode, p.stdout[-1500:]))
+        rc, out = vf.run_driver([exe_r, spb, trb], trb, timeout=900)
+        if rc == 3:
+            raise vf.Infra("drv_region (fault mode) could not read its script: %s" % out[-1500:])
         traces.append(trb)
     for t in traces:
         for line in open(t):
@@ -115,6 +200,7 @@ def run(prop, args):
                 chk.evaluations += 1
                 if '"nfail":0' not in line:
                     chk.distinct_keys.add(hash(line[:line.find('"st"')]))
+    traces += [tr0, trf]
     chk.sample({"region_fault_script": faulted[0][:6] if faulted else []})
     vf.validate_batches(chk, "RegionTrace", traces,
                         cfg=vf.cfg_with_deviations(os.path.join(vf.SPEC, "trace", "RegionTrace_C15.cfg"), "C15"),
@@ -128,8 +214,8 @@ def run(prop, args):
     for sc in SCENARIOS:
         for sd in seeds:
             tr = os.path.join(wd, "obj-%s-%d.ndjson" % (sc, sd))
-            p = vf.sh([exe_f, tr, sc, str(sd)], timeout=600, check=False)
-            out = (p.stdout or "").strip().splitlines()
+            rc, outp = vf.run_driver([exe_f, tr, sc, str(sd)], tr, timeout=600)
+            out = (outp or "").strip().splitlines()
             try:
                 nsites[sc] = int(out[0])
             except (IndexError, ValueError):
